@@ -12,6 +12,7 @@ Ops (one per line):
   grant granter=A grantee=B mt=write count=0      (count 0 = generic authorization)
   revoke granter=A grantee=B mt=write
   access marker=MR addr=A perms=withdraw|deposit  (perms=- : none)
+  mstatus marker=MR status=cancelled              (proposed|finalized|active|cancelled|destroyed)
   denom s1                                        (scope denom round trip; pure)
   dump
 The verdict of a `dump` line is the property's step checker (`stepClause`) applied to the
@@ -40,7 +41,7 @@ def showScopeObs (o : ScopeObs) : String :=
 def showObs (o : Obs) : String :=
   let gs := sortStrs (o.grants.map fun g => s!"{g.granter}>{g.grantee}:{g.mt.toString}:{g.count}")
   let ms := sortStrs (o.markers.map fun m =>
-    s!"{m.addr}:{boolStr m.restricted}:{joinOr (sortStrs (m.access.map fun (a, p) => s!"{a}.{p.toString}")) "+"}")
+    s!"{m.addr}:{boolStr m.restricted}:{m.status.toString}:{joinOr (sortStrs (m.access.map fun (a, p) => s!"{a}.{p.toString}")) "+"}")
   s!"{" ".intercalate (o.scopes.map showScopeObs)} grants={joinOr gs ","} markers={joinOr ms ","}"
 
 /-! ### parsing the implementation's dump back into an `Obs` -/
@@ -80,9 +81,10 @@ private def parseAccessEnt (s : String) : Option (Addr × Access) :=
 
 private def parseMarker (s : String) : Option Marker :=
   match s.splitOn ":" with
-  | [a, r, acc] => do
+  | [a, r, st, acc] => do
     let acc ← (splitList acc "+").mapM parseAccessEnt
-    pure ⟨a, r = "1", acc⟩
+    let st ← MStatus.ofString? st
+    pure ⟨a, r = "1", acc, st⟩
   | _ => none
 
 def parseObs (line : String) : Option Obs := do
@@ -121,6 +123,8 @@ def parseOp (ws : List String) : Option Op :=
     pure (.revoke (← kv rest "granter") (← kv rest "grantee") (← (kv rest "mt") >>= MsgType.ofString?))
   | "access" :: rest => do
     pure (.access (← kv rest "marker") (← kv rest "addr") (← (splitList (← kv rest "perms")).mapM Access.ofString?))
+  | "mstatus" :: rest => do
+    pure (.mstatus (← kv rest "marker") (← (kv rest "status") >>= MStatus.ofString?))
   | _ => none
 
 def kindName : StepKind → String
